@@ -197,3 +197,46 @@ lu_full = Fn(LUP + 'lu', ret='r', level='L1', valid=c01.LUV, requires=['C11.mach
                       'C11.lu.permutation:: forall|n: int| 0 <= n && n * n == matrix@.len() ==> is_perm32(r.1@, n)',
                       'C11.lu.l_bounded:: forall|n: int| 0 <= n && n * n == matrix@.len() ==> bounded(r.0@, n, n)',
                       'C11.lu.reconstruct:: forall|n: int| 0 <= n && n * n == matrix@.len() ==> r.0@.len() == n * n && #[trigger] factored(matrix@, r.0@, r.1@, n, n)'])
+
+# ---------------------------------------------------------------- the same reconstruction contract for Matrix::lu (derived textually)
+from contracts.core import IM
+
+
+def _m(t):
+    """slice-level proof text -> Matrix-level: the array is lu.data.v@, the input is self.data.v@"""
+    return (t.replace('lu@', 'lu.data.v@').replace('matrix@', 'self.data.v@')
+             .replace('lu[i * n + j] = lu[i * n + j] - (s);', 'lu[[i, j]] = lu[[i, j]] - (s);')
+             .replace('if j < n && lu[j * n + j] != 0.', 'if j < n && lu[[j, j]] != 0.'))
+
+
+SHP = 'lu.nrows == n && lu.ncols == n && wf(lu) && self.nrows == n && self.ncols == n && wf(*self)'
+
+
+def _mloops(loops):
+    out = {}
+    for k, v in loops.items():
+        d = {}
+        for kk, vv in v.items():
+            if kk == 'invariant':
+                d[kk] = [SHP] + [_m(x).replace('lu.data.v@.len() == n * n', 'lu.data.v@.len() == n * n') for x in vv if x not in ('n * n == matrix@.len()', 'matrix@.len() <= 0x7fff_ffff')]
+            elif isinstance(vv, str):
+                d[kk] = _m(vv)
+            else:
+                d[kk] = vv
+        out[k] = d
+    return out
+
+
+mlu_rec = Fn(IM + 'lu', ret='r', level='L1', valid='self.nrows == self.ncols', panics={1: 'REJECT'},
+             requires=['C11.mlu.wf:: wf(*self)'],
+             ensures=['C11.mlu.valid:: self.nrows == self.ncols',
+                      'C11.mlu.reconstruct:: r.0.nrows == self.nrows && r.0.ncols == self.ncols && wf(r.0) && factored(self.data.v@, r.0.data.v@, r.1@, self.nrows as int, self.nrows as int)'],
+             closures={1: {'params': 'x: usize', 'ret': 'o: i32', 'requires': ['x < n', 'n <= 0x7fff_ffff'], 'ensures': ['o == x']}},
+             loops=_mloops(lu_rec.loops),
+             hints=[('let mut pivots: Vec<i32>', 'before', 'proof { assert(n <= 0x7fff_ffff); }'),
+                    ('for j in 0..n', 'before', 'proof { assert(is_perm32(pivots@, n as int)); '
+                     'assert forall|r: int, c: int| 0 <= r < n && 0 <= c < n implies #[trigger] at2(lu.data.v@, n as int, r, c) == at2(self.data.v@, n as int, pivots@[r] as int, c) by { } }')] +
+                   [(_m(a), pos, _m(txt)) for (a, pos, txt) in lu_rec.hints[2:-1]])
+UNITS.append(Unit('C11_matrix_lu_reconstruct', ('C11', 'C01'), [mlu_rec], use=core.core_stubs(), types=core.TYPES, type_spec=core.TYPE_SPEC,
+                  spec=c01.SPEC + c01.LU_SPEC + REC_SPEC, nra=NRA, preludes=PRE, broadcast=BC, level='L1', rlimit=300,
+                  notes='Matrix::lu reconstructs the input: the same P A = L U contract as the slice-level routine, over the matrix data'))
